@@ -535,9 +535,13 @@ PROP = Prop(
           "drop, cache blacklist with opt-out}, the configuration being set on the simulation before any holder exists; compared with the "
           "model (whose only configuration is which variables are not cached): every returned value, the stack, the final known values; oracle: "
           "every request equals the plain in-memory run, and with tracing on every calculated node of the flat trace lists exactly the reads of "
-          "its formula in force, in order. Non-trivial = some option set and some value returned; distinct = distinct (line, option subset)."),
+          "its formula in force, in order; a third of the inputs are written twice, the first time below and the second time above the "
+          "occupation threshold; the flat trace, its serialised form and the computation log are compared with the trace trees after every "
+          "request. Second stream (`hst`, 3 000 histories): writes (set_input / put_in_cache, threshold moved before each), reads, deletions and "
+          "known periods on ONE real holder -- every value type, dated and eternal variables, disk-storable or not -- against the two-tier store "
+          "model and a one-dictionary oracle. Non-trivial = some option set and some value returned; distinct = distinct (line, option subset)."),
     assumptions=[
-        "psutil's memory reading is forced to one branch (max_memory_occupation = 0: always store on disk)",
+        "psutil's memory reading is not controlled; the threshold is: max_memory_occupation_pc = 0 (always at or above: disk) or 101 (never: memory)",
         "numpy.save/load and the file system are trusted; disk files live under /var/tmp and are removed after each case",
         "requests that the plain run refuses are outside the quantifier (the statement speaks of the values of the plain in-memory run)",
         "the trace clause: C17_trace_reads is a theorem about the instrumented evaluator runET (it records exactly the reads of the expression); that the real FullTracer's children are these reads is checked by the correspondence (model readsOf vs tracer trees) and by the oracle",
